@@ -232,15 +232,20 @@ CHECKS = {
               "destroy with drawn force / allowInRunningState / keepTasks flags (rarely with every KILL refused by the master), or make the "
               "creation fail at a drawn stage (template error, detector in use, launch failure, no agent, critical CONFIGURE error, or a critical "
               "hook failing at before_CONFIGURE while another call started earlier in that moment waits to be collected at a later weight; the "
-              "same hook pair at before_START_ACTIVITY is one of the two ways the ERROR state is reached). Oracle after "
+              "same hook pair at before_START_ACTIVITY is one of the two ways the ERROR state is reached); optionally a CleanupTasks request that "
+              "names the environment's own tasks precedes the destroy (a no-op). TestDestroyDuringDeployment: the creation is slowed down "
+              "(tasks take 0.3-1.5 s to report TASK_RUNNING), the id is read from the listing and a forced destroy is requested 0-900 ms "
+              "later; afterwards not listed, no launched task still owned, every surviving launched task asked to terminate after a clean-up. Oracle after "
               "the call returns: not listed, no launched task still locked, every task ever owned received a KILL unless keepTasks, unowned "
               "leftovers die at the next CleanupTasks, detectors free and the workflow can be created again, no hook-call goroutine left "
               "(pprof dump of the core), DESTROY hooks ran exactly once and only when no task was owned any more, refused kills => error. "
               "Every case is non-trivial; distinct = distinct case digests."),
         assumptions=["goroutine leak detection reads the core's own net/http/pprof dump (served by simcore on a private port)",
                      "an HTTP-level refusal of KILL disconnects the mesos-go client; such cases end the shared world"],
-        quick=[R("^TestFixed$", 1, 1, 600), R("^TestTeardown$", 10, 10, 800, shrinktime="90s")],
-        thorough=[R("^TestFixed$", 1, 1, 600), R("^TestTeardown$", 200, 15, 3400, shrinktime="180s")],
+        quick=[R("^TestFixed$", 1, 1, 600), R("^TestTeardown$", 10, 10, 800, shrinktime="90s"),
+               R("^TestDestroyDuringDeploymentFixed$", 1, 1, 600), R("^TestDestroyDuringDeployment$", 5, 3, 800, shrinktime="60s")],
+        thorough=[R("^TestFixed$", 1, 1, 600), R("^TestTeardown$", 200, 15, 3400, shrinktime="180s"),
+                  R("^TestDestroyDuringDeploymentFixed$", 1, 1, 600), R("^TestDestroyDuringDeployment$", 60, 3, 3400, shrinktime="120s")],
     ),
     "C18": dict(
         pkg="./props/c18", bins=["./cmd/simcore"], level="fault_enumeration",
